@@ -21,10 +21,23 @@ theorem mpzToRuintLoop_nat (bits : Nat) : ∀ (n m i acc : Nat),
     rw [h1, Nat.mod_mul, h2]
     ring
 
+theorem limbs_bits (K : Nat) (hK : 6 ≤ K) : 64 * (2 ^ K / 64) = 2 ^ K := by
+  obtain ⟨j, rfl⟩ : ∃ j, K = 6 + j := ⟨K - 6, by omega⟩
+  rw [Nat.pow_add]; norm_num
+
+/-- `mpz_to_ruint` is reduction modulo 2^(2^K) into `[0, 2^(2^K))`, for every integer of either sign -/
+theorem mpzToRuint_int (K : Nat) (hK : 6 ≤ K) (b : Int) : (mpzToRuint K b : Int) = b % ((2 ^ 2 ^ K : Nat) : Int) := by
+  have hNpos : (0 : Int) < ((2 ^ 2 ^ K : Nat) : Int) := by exact_mod_cast Nat.pow_pos (by decide : 0 < 2)
+  have h0 : 0 ≤ b % ((2 ^ 2 ^ K : Nat) : Int) := Int.emod_nonneg _ (by omega)
+  have hlt : b % ((2 ^ 2 ^ K : Nat) : Int) < ((2 ^ 2 ^ K : Nat) : Int) := Int.emod_lt_of_pos _ hNpos
+  obtain ⟨m, hm⟩ : ∃ m : Nat, b % ((2 ^ 2 ^ K : Nat) : Int) = (m : Int) := ⟨_, (Int.toNat_of_nonneg h0).symm⟩
+  have hmlt : m < 2 ^ 2 ^ K := by rw [hm] at hlt; exact_mod_cast hlt
+  simp only [mpzToRuint, hm, mpzToRuintLoop_nat, limbs_bits K hK, Nat.mod_eq_of_lt hmlt]
+  simp
+
 theorem mpzToRuint_nat (K : Nat) (hK : 6 ≤ K) (a : Nat) (ha : a < 2 ^ 2 ^ K) : mpzToRuint K (a : Int) = a := by
-  have h64 : 64 * (2 ^ K / 64) = 2 ^ K := by
-    obtain ⟨j, rfl⟩ : ∃ j, K = 6 + j := ⟨K - 6, by omega⟩
-    rw [Nat.pow_add]; norm_num
-  simp [mpzToRuint, mpzToRuintLoop_nat, h64, Nat.mod_eq_of_lt ha]
+  have h := mpzToRuint_int K hK (a : Int)
+  rw [Int.emod_eq_of_lt (by omega) (by exact_mod_cast ha)] at h
+  exact_mod_cast h
 
 end Givaro.Lemmas.Text
